@@ -7,12 +7,14 @@ Property C06:
    of su(2^N)."
 
 Totality is a statement about the search procedures of
-`application/pauli_compiler.py`, which are NOT modelled.  The property is FALSE
-on the current tree: the implementation raises `RuntimeError` for 108 of 255
-targets at `(N,k) = (4,3)` etc.  A raise cannot be exhibited in Lean without a
-model of the search; it is an OBSERVED fact, recorded in
-`Compiler.observedRaises` and replayed on the implementation by the harness on
-every run (finding, complete list for `N ≤ 5` in `known/compiler_failures.json`).
+`application/pauli_compiler.py`.  The property is FALSE on the current tree: the
+implementation raises `RuntimeError` for 108 of 255 targets at `(N,k) = (4,3)` etc.
+This file holds what does not need a model of the search; the search is modelled in
+`Model/CompilerSearch.lean`, and `Properties/C06Search.lean` exhibits the raise as a
+kernel-evaluated run of that model (`C06_refuted`), proves the breadth-first search sound and
+complete and derives the odd-`k` failures for all `N`.  The raises recorded in
+`Compiler.observedRaises` are replayed on the implementation on every run (complete list for
+`N ≤ 5` in `known/compiler_failures.json`).
 
 What Lean proves here:
 * `compileTargetFront_spec` — the modelled front end of `compile_target` (guard,
